@@ -135,6 +135,7 @@ class RawPeer(asyncio.Protocol):
         self.transport = None
         self.received = bytearray()
         self.chunks = []
+        self.timed = []  # (virtual arrival time, bytes)
         self.eof = False
         self.lost = None  # None | 'closed' | repr(exc)
         self.paused = False
@@ -145,6 +146,8 @@ class RawPeer(asyncio.Protocol):
     def data_received(self, data):
         self.received += data
         self.chunks.append(bytes(data))
+        if self.sim is not None:
+            self.timed.append((self.sim.loop.time(), bytes(data)))
 
     def eof_received(self):
         self.eof = True
